@@ -28,7 +28,7 @@ pub fn product(ctx: &Ctx) {
     }
 }
 
-const LONG: [usize; 3] = [65535, 65536, 200_000];
+const LONG: [usize; 22] = [65535, 65536, 200000, 4095, 4096, 4097, 8191, 8192, 8193, 16383, 16384, 16385, 32767, 32768, 32769, 65537, 131071, 131072, 131073, 1048575, 1048576, 1048577];
 
 /// multi-page lengths 1020k+d (k=1..3, d=-20..=20) and three long ones x 16 residues; payload
 /// patterns: unique, all 0x00, all 0xFF
